@@ -19,6 +19,38 @@ from .common import *
 from .c14 import STD_CURVES, canon
 from .c16 import curve_kernel
 
+def _disk(kind, keystr, compute):
+    """memo of a pure computation (a branch-and-bound result is a function of the expression text, the reference
+    formula source and the parameters only) under .cache/bb/ - the kernels themselves are re-extracted on every run"""
+    import hashlib, json
+    root = os.path.join(os.environ.get('VERIF_OUT_DIR', VERIF_DIR), '.cache', 'bb')
+    h = hashlib.sha256((kind + '|' + keystr).encode()).hexdigest()[:32]
+    path = os.path.join(root, h + '.json')
+    if os.environ.get('VERIF_NO_BB_CACHE') != '1' and os.path.exists(path):
+        try:
+            d = json.load(open(path))
+            if d.get('key') == kind + '|' + keystr:
+                return tuple(d['value']), True
+        except Exception:
+            pass
+    v = compute()
+    try:
+        os.makedirs(root, exist_ok=True)
+        tmp = path + '.tmp%d' % os.getpid()
+        json.dump(dict(key=kind + '|' + keystr, value=list(v)), open(tmp, 'w'))
+        os.replace(tmp, path)
+    except Exception:
+        pass
+    return v, False
+
+VERIF_DIR = os.path.dirname(os.path.dirname(os.path.abspath(__file__)))
+_SPEC_SRC = [None]
+def spec_hash():
+    import hashlib
+    if _SPEC_SRC[0] is None:
+        _SPEC_SRC[0] = hashlib.sha256(open(os.path.join(SPEC, 'transfer_spec.py'), 'rb').read() + open(os.path.join(VERIF_DIR, 'engine', 'ival.py'), 'rb').read()).hexdigest()[:16]
+    return _SPEC_SRC[0]
+
 def load_spec():
     p = os.path.join(SPEC, 'transfer_spec.py')
     s = importlib.util.spec_from_file_location('transfer_spec', p)
@@ -30,19 +62,20 @@ ALIASES = ['BT1886', 'ST170M', 'ST240M', 'BT2020Ten', 'BT2020Twelve']
 def budget(t, direction):
     return 5.7e-4 if (t == 'PerceptualQuantizer' and direction == 'to_gamma') else 2.5e-4
 
-def run(tier):
-    ck = Check('C03', tier, 'proof', 'closed-form extraction of each curve from MIR + interval branch and bound against the standard formula (formula level) + paired interval error propagation with certified powf/expf error (implementation level); match-table rules for Linear and the aliases')
+def analyse(ck, tier, build='K1', prefix='C03', budget_fn=budget, witness=True, clauses=True, not_closing=None):
+    """per-curve obligations for one build configuration; returns {curve/direction: dict(formula, implementation, total, budget)}"""
     spec_ = load_spec()
-    ctx = Ctx('K1')
+    ctx = Ctx(build)
     kernels = {}
     bb_cache = {}
     err_cache = {}
     budgets = {}
-    H = realerr.Helpers(Ctx('K1', 'yuvxyb_math'))
-    ck.note('helper_kind', dict(H.kind))
+    H = realerr.Helpers(Ctx(build, 'yuvxyb_math'))
+    ck.note(f'helper_kind/{build}', dict(H.kind))
+    tag = '' if build == 'K1' and prefix == 'C03' else f"/{build}"
     for t in STD_CURVES:
         for di, direction in enumerate(('to_linear', 'to_gamma')):
-            base = f"C03/{t}/{direction}"
+            base = f"{prefix}/{t}/{direction}{tag}"
             try:
                 e, x = curve_kernel(ctx, t, direction)
                 kernels[(t, direction)] = (e, x)
@@ -52,7 +85,7 @@ def run(tier):
                     continue
                 f = lambda iv, e=e, x=x: evaluate(e, {x.id: iv})
                 g = spec_[t][di]
-                bud = budget(t, direction)
+                bud = budget_fn(t, direction)
                 # (2) implementation level first: it fixes how much room the formula level has
                 ekey = canon(e)
                 if ekey not in err_cache:
@@ -63,15 +96,19 @@ def run(tier):
                 e_up, e_n, e_box, e_msg = err_cache[ekey]
                 ck.count('error_boxes', e_n)
                 room = bud - e_up
-                thr = 0.2 * bud if room <= 0 else min(0.2 * bud, 0.8 * room)
+                thr = 0.2 * bud if room <= 0 else (min(0.2 * bud, 0.8 * room) if bud >= 2e-4 else 0.6 * room)
                 lo = 0.0
                 ckey = (canon(e), id(g), thr)
                 if ckey not in bb_cache:
-                    bb_cache[ckey] = sup_abs_diff(f, g, lo, 1.0, thr, max_boxes=(60000 if thr > 4e-5 else 400000) if tier == 'quick' else 1000000)
+                    mb = (60000 if thr > 4e-5 else 400000) if tier == 'quick' else 1000000
+                    # cache key: the kernel text, the reference formula (spec source hash + curve/direction), threshold rounded UP to 2 digits
+                    thr_k = float(f"{thr:.2g}") if float(f"{thr:.2g}") <= thr else thr
+                    bb_cache[ckey], hit = _disk('formula', f"{canon(e)}|{spec_hash()}|{t}|{di}|{thr_k!r}|{mb}", lambda: sup_abs_diff(f, g, lo, 1.0, thr_k, max_boxes=mb))
+                    ck.count('bb_cache_hits', 1 if hit else 0)
                 upper, lower, arg, n = bb_cache[ckey]
                 ck.count('boxes', n)
-                if upper <= thr:
-                    ck.ob(base, 'PROVED', f"sup over [0,1] of |curve - defining formula| <= {upper:.3g} at formula level (target {thr:.3g})")
+                if upper <= thr or upper + e_up < bud:
+                    ck.ob(base, 'PROVED', f"sup over [0,1] of |curve - defining formula| <= {upper:.3g} at formula level (search target {thr:.3g})")
                 elif lower > 2 * bud:
                     ck.ob(base, 'REFUTED', f"the closed form of {t} {direction} differs from the defining formula by >= {lower:.3g} at x = {arg!r} (budget {bud}); no admissible approximation error can repair that")
                 else:
@@ -79,25 +116,35 @@ def run(tier):
                 total = upper + e_up
                 if total < bud:
                     ck.ob(base + '/budget', 'PROVED', f"|computed - defining formula| <= {upper:.3g} (formula level) + {e_up:.3g} (rounding, libm, certified powf/expf error; {e_n} boxes) = {total:.4g} < {bud} for every x in [0,1]")
+                elif not_closing and f"{t}/{direction}" in not_closing:
+                    ck.note(f"budget_not_decided/{build}/{t}/{direction}", f"bound {total:.4g} vs budget {bud}: {not_closing[f'{t}/{direction}']}")
                 else:
                     ck.ob(base + '/budget', 'UNDECIDED', f"bound {upper:.3g} + {e_up:.3g} = {total:.4g} does not stay below the budget {bud}" + (f" ({e_msg})" if e_msg else '') + (f"; worst box {e_box}" if e_box else ''))
                 budgets[f"{t}/{direction}"] = dict(formula=upper, implementation=e_up, total=total, budget=bud)
                 ck.sample(dict(curve=t, direction=direction, upper=upper, lower=lower, boxes=n))
-                # counter-example search on the REAL kernel (helper bodies expanded and constant-folded):
-                # can only refute - no accuracy claim is derived from it
-                w = real_witness(ctx, e, x, g, bud, 129 if tier == 'quick' else 1025)
-                if w:
-                    ck.ob(base + '/real-kernel-witness', 'REFUTED', f"with the real powf/expf bodies folded, {t} {direction}({w[0]!r}) = {w[1]!r}, the defining formula gives {w[2]!r}: off by {abs(w[1] - w[2]):.3g} > {bud}")
+                if witness:
+                    # counter-example search on the REAL kernel (helper bodies expanded and constant-folded):
+                    # can only refute - no accuracy claim is derived from it
+                    w = real_witness(ctx, e, x, g, bud, 129 if tier == 'quick' else 1025)
+                    if w:
+                        ck.ob(base + '/real-kernel-witness', 'REFUTED', f"with the real powf/expf bodies folded, {t} {direction}({w[0]!r}) = {w[1]!r}, the defining formula gives {w[2]!r}: off by {abs(w[1] - w[2]):.3g} > {bud}")
             except Unsupported as ex:
                 ck.ob(base, 'UNDECIDED', f"analysis lost: {ex}")
-    # aliases: identical kernels (same callee => bit-identical results)
-    for direction in ('to_linear', 'to_gamma'):
-        ks = {t: canon(kernels[(t, direction)][0]) for t in ALIASES if (t, direction) in kernels}
-        same = len(set(ks.values())) == 1 and len(ks) == len(ALIASES)
-        ck.ob(f"C03/aliases/{direction}", 'PROVED' if same else 'REFUTED',
-              'BT1886, ST170M, ST240M, BT2020Ten, BT2020Twelve have the identical kernel expression' if same else f"aliases of BT.1886 differ: { {t: hash(v) % 1000 for t, v in ks.items()} }")
+    if clauses:
+        # aliases: identical kernels (same callee => bit-identical results)
+        for direction in ('to_linear', 'to_gamma'):
+            ks = {t: canon(kernels[(t, direction)][0]) for t in ALIASES if (t, direction) in kernels}
+            same = len(set(ks.values())) == 1 and len(ks) == len(ALIASES)
+            ck.ob(f"{prefix}/aliases/{direction}{tag}", 'PROVED' if same else 'REFUTED',
+                  'BT1886, ST170M, ST240M, BT2020Ten, BT2020Twelve have the identical kernel expression' if same else f"aliases of BT.1886 differ: { {t: hash(v) % 1000 for t, v in ks.items()} }")
+    ck.note(f'budgets/{build}', budgets)
+    return budgets
+
+def run(tier):
+    ck = Check('C03', tier, 'proof', 'closed-form extraction of each curve from MIR + interval branch and bound against the standard formula (formula level) + paired interval error propagation with certified powf/expf error (implementation level); match-table rules for Linear and the aliases')
+    analyse(ck, tier, 'K1')
     ck.floor('curves', 28)
-    ck.note('budgets', budgets)
+    ck.floor('error_boxes', 100)
     ck.assumptions += ['A-libm: f32 ln / log10 of the target libm within 1 ulp; sqrt correctly rounded', 'host libm within 1 ulp (interval evaluation widened by 8 ulps)', 'xvYCC on [0,1] is the BT.1886 pair',
                        'default build (K1: fastmath, no FMA); the FMA and libm builds are covered by C20']
     return ck.finish()
